@@ -55,7 +55,7 @@ Proof. vm_compute. reflexivity. Qed.
 Definition nonsimple_mult (a : chain) : bool :=
   existsb (fun s => is_some (b_mult (snd s)) && negb (simple_chain (b_chain (snd s)))) (sites a).
 Lemma C05_units_cover_small_list :
-  forallb (fun a => negb (wf fo_none a && Nat.eqb (class_C05 true a) 0 && negb (nonsimple_mult a) && negb (cls_stale_recipe a)) || units_ok fo_none a) small_c05 = true.
+  forallb (fun a => negb (wf fo_none a && Nat.eqb (class_C05 true a) 0 && negb (nonsimple_mult a)) || units_ok fo_none a) small_c05 = true.
 Proof. vm_compute. reflexivity. Qed.
 Lemma C05_units_cover_small_nonvacuous :
   (2000 <=? length (filter (fun a => wf fo_none a && units_ok fo_none a && has_branch_mult a) small_c05))%nat = true.
